@@ -16,7 +16,7 @@ import (
 
 // C15 — a compiled expression never fails with a Go runtime error.
 
-const ruleC15 = "rapid: 4/5 syntactically valid but semantically unconstrained expressions (any expression in any operand, argument, predicate or path-start position; every axis incl. namespace::; every function in f(...) and zero-argument form with arities 0..3; variables; sequences), 1/5 token soup (1-10 tokens of the full vocabulary, brackets balanced with probability 3/4); only what Compile accepts is evaluated, on small documents (<= ~15 nodes) from any context node. enum (exhaustive): every known function applied to every argument-type combination over {number, string, boolean, node-set, empty node-set} up to arity 3, every binary operator over every type pair, unary minus over every type. Oracle: Select (drained) and Evaluate (iterator drained) either complete or panic with a value that is an error but not a runtime.Error; Evaluate's result is bool, float64, string or *NodeIterator; termination is decided by the harness navigator's operation budget (2*10^7, confirmed with 4*10^7; legitimate cost on these sizes is < 10^6), never by wall clock. Draining a non-node-set expression is capped at 10^4 results (a cap hit is not a violation). Non-trivial: accepted by Compile and contains a function call or mixes value types across an operator; distinct by (document, context, expression)."
+const ruleC15 = "rapid: 4/5 syntactically valid but semantically unconstrained expressions (any expression in any operand, argument, predicate or path-start position; every axis incl. namespace::; every function in f(...) and zero-argument form with arities 0..3; variables; sequences), 1/5 token soup (1-10 tokens of the full vocabulary, brackets balanced with probability 3/4); only what Compile accepts is evaluated, on small documents (<= ~15 nodes) from any context node. enum (exhaustive): every known function applied to every argument-type combination over {number, string, boolean, node-set, empty node-set} up to arity 3, every binary operator over every type pair, unary minus over every type. Oracle: Select (drained) and Evaluate (iterator drained) either complete or panic with a value that is an error but not a runtime.Error; Evaluate's result is bool, float64, string or *NodeIterator; termination is decided by the harness navigator's operation budget (2*10^7, confirmed with 4*10^7), never by wall clock: on documents of <= 16 nodes (legitimate cost there is < 10^6) running out of budget is non-termination; on the larger (wide) documents, where a nested expression legitimately costs n^k, the case is re-decided on two pruned copies of <= 16 nodes (one keeping the depth, one keeping all children of the document element) and is inconclusive if those terminate. Draining a non-node-set expression is capped at 10^4 results (a cap hit is not a violation). Non-trivial: accepted by Compile and contains a function call or mixes value types across an operator; distinct by (document, context, expression)."
 
 var (
 	uC15Rapid = harness.NewUnit("C15", "rapid-unconstrained-expressions", ruleC15)
@@ -32,10 +32,47 @@ func init() {
 
 const c15Budget = 20000000
 
+// c15SmallDoc: documents up to this size decide termination by the budget (the
+// costliest generated expression stays below 10^6 operations on them).
+const c15SmallDoc = 16
+
+// prunedDocs returns two reductions of d with at most c15SmallDoc nodes: one that
+// keeps the depth (first two children and first attribute everywhere), one that
+// keeps the width (the document element with all its children, nothing below).
+func prunedDocs(d *xdoc.Doc) []*xdoc.Doc {
+	var cp func(n *xdoc.Node, depth int, keep func(depth, i int) bool, attrs int) *xdoc.Node
+	cp = func(n *xdoc.Node, depth int, keep func(depth, i int) bool, attrs int) *xdoc.Node {
+		m := &xdoc.Node{Kind: n.Kind, Prefix: n.Prefix, Local: n.Local, NS: n.NS, Value: n.Value}
+		for i, a := range n.Attrs {
+			if i < attrs {
+				m.Attrs = append(m.Attrs, &xdoc.Node{Kind: a.Kind, Prefix: a.Prefix, Local: a.Local, NS: a.NS, Value: a.Value})
+			}
+		}
+		for i, k := range n.Kids {
+			if keep(depth+1, i) {
+				m.Kids = append(m.Kids, cp(k, depth+1, keep, attrs))
+			}
+		}
+		return m
+	}
+	deep := xdoc.NewDoc(cp(d.Root, 0, func(depth, i int) bool { return depth <= 3 && (i < 2 && depth <= 2 || i < 1) }, 1))
+	wide := xdoc.NewDoc(cp(d.Root, 0, func(depth, i int) bool { return depth == 1 && i == 0 || depth == 2 && i < 13 }, 0))
+	var out []*xdoc.Doc
+	for _, x := range []*xdoc.Doc{deep, wide} {
+		if len(x.Nodes) <= c15SmallDoc {
+			out = append(out, x)
+		}
+	}
+	return out
+}
+
 type c15Info struct {
 	accepted   bool
 	outcome    string
 	knownRound bool
+	// the operation budget ran out on a document too large for the budget to decide
+	// termination, and the pruned copies of the document terminated
+	inconclusive bool
 }
 
 func oracleC15(l *harness.Live) (c15Info, *harness.Failure) {
@@ -90,7 +127,22 @@ func oracleC15(l *harness.Live) (c15Info, *harness.Failure) {
 			// confirm with twice the budget before calling it non-termination
 			outcome, pan, bad = run(mode, 2*c15Budget)
 			if pan != nil && pan.Budget {
-				return info, harness.Failf(mode+" terminates", fmt.Sprintf("still running after %d navigator operations on a %d-node document", 2*c15Budget, len(l.Doc.Nodes)), mode+" does not terminate")
+				if len(l.Doc.Nodes) <= c15SmallDoc {
+					return info, harness.Failf(mode+" terminates", fmt.Sprintf("still running after %d navigator operations on a %d-node document", 2*c15Budget, len(l.Doc.Nodes)), mode+" does not terminate")
+				}
+				// On a larger document a nested expression can legitimately cost more than the
+				// budget (n^k). Non-termination does not go away when the document shrinks, cost
+				// does: decide on pruned copies of at most c15SmallDoc nodes.
+				for _, small := range prunedDocs(l.Doc) {
+					sl := *l
+					sl.Doc, sl.Ctx = small, small.Root
+					if _, f := oracleC15(&sl); f != nil {
+						*l = sl
+						return info, f
+					}
+				}
+				info.inconclusive = true
+				return info, nil
 			}
 		}
 		if bad == "int" && harness.Excluded("round-int") && strings.Contains(l.Expr, "round") {
@@ -164,10 +216,17 @@ func TestC15Rapid(t *testing.T) {
 		if rapid.IntRange(0, 9).Draw(rt, "wide") == 0 {
 			o.WideFan, o.MaxAttrs = 12, 1 // sibling positions of two digits
 		}
+		unicode := rapid.IntRange(0, 5).Draw(rt, "unicode") == 0
+		if unicode {
+			// names and values outside ASCII: functions that index strings by byte meet multi-byte characters
+			o.ElNames = []string{"a", "é"}
+			o.Texts = []string{"é", "中文", "1", "aé"}
+			o.AtVals = []string{"é", "1", "中"}
+		}
 		doc := xgen.Doc(rt, o)
 		ctx := xgen.Context(rt, doc, 3)
 		g := xgen.NewG(rt, doc)
-		g.ElNames = xgen.ElNames2
+		g.ElNames = o.ElNames
 		var text, kind string
 		var ast xast.Expr
 		if rapid.IntRange(0, 4).Draw(rt, "soup") == 0 {
@@ -184,6 +243,10 @@ func TestC15Rapid(t *testing.T) {
 		}
 		if info.knownRound {
 			uC15Rapid.Exclude("round-int")
+		}
+		if info.inconclusive {
+			uC15Rapid.Skip() // budget ran out on a large document: inconclusive
+			return
 		}
 		labels := []string{kind}
 		if !info.accepted {
